@@ -3,6 +3,7 @@ CONSTANTS
   Policy = "after-n"
   AfterN = 3
   MaxTime = 40
+  MaxStops = 2
 INVARIANTS NoViolation RecordOK TimerOK KillsBounded
 PROPERTY Terminates
 CHECK_DEADLOCK FALSE
